@@ -45,6 +45,7 @@ func checkC09(c *Ctx, e *Env) {
 		r := RunE1(m)
 		x := r.X
 		if mod == "x/ecocredit" {
+			importObligations(c, e, checkC01, "C01", "C09.LEDGER", "ledger#conserving", "genesis validation recomputes every batch's supply from the balances and rejects the export of a state in which they disagree; reachable states agree only while every handler conserves credits", func(o *Oblig) bool { return o.Rule == "C01.EQ" || o.Rule == "C01.FRESH" })
 			ruleSupplyCovered(c, m, r, "C09.COVER")
 			ruleGenesisPrecision(c, m, r, "x/ecocredit/v3/genesis")
 		}
